@@ -23,7 +23,7 @@ def mutate(r, data, tags=("Silf", "Glat", "Gloc", "Feat", "Sill", "cmap", "hmtx"
         x = r.choice(list(t))
         pos = t[x][2] + r.choice([8, 12]) + r.randrange(4)
         b[pos] = r.randrange(256)
-        return bytes(b), "dir:%s@%d" % (x, pos)
+        return bytes(b), "dir:%s@%d=%02x" % (x, pos, b[pos])
     off, ln, _ = t[tag]
     for _ in range(r.randrange(1, maxbytes + 1)):
         # favour the structured front part of the table (headers, offsets, state tables)
@@ -40,6 +40,32 @@ def mutate(r, data, tags=("Silf", "Glat", "Gloc", "Feat", "Sill", "cmap", "hmtx"
         b = b[:cut]
         desc.append("cut@%d" % cut)
     return bytes(b), ",".join(desc)
+
+
+def apply(data, desc):
+    """re-applies a description returned by `mutate` to the same original bytes"""
+    t = tables(data)
+    b = bytearray(data)
+    for d in desc.split(","):
+        if d.startswith("dir:"):
+            pos, v = d.split("@")[1].split("=")
+            b[int(pos)] = int(v, 16)
+            continue
+        if d.startswith("cut@"):
+            b = b[: int(d[4:])]
+            continue
+        tag, rest = d.split("+", 1)
+        k, ch = rest.split(":")
+        b[t[tag][0] + int(k)] = int(ch.split(">")[1], 16)
+    return bytes(b)
+
+
+def drop_table(data, tag):
+    """the same font without table `tag` (its directory entry is renamed, so a lookup by tag does not find it)"""
+    t = tables(data)
+    b = bytearray(data)
+    b[t[tag][2]: t[tag][2] + 4] = b"zz" + tag[2:].encode("latin1")
+    return bytes(b)
 
 
 def replace_table(data, tag, new):
